@@ -3,3 +3,16 @@
 package tree
 
 const verifEnabled = true
+
+// verifGate is called by the two analysis goroutines of Compile at every rule they visit, by warn, and by
+// the main goroutine around the wait; a harness may install a function that records the event and
+// blocks the caller until a scheduler lets it proceed (deterministic replay of interleavings).
+var verifGate = func(pass, ev, arg string) {}
+
+// VerifSetGate installs the gate function (nil restores the no-op).
+func VerifSetGate(f func(pass, ev, arg string)) {
+	if f == nil {
+		f = func(pass, ev, arg string) {}
+	}
+	verifGate = f
+}
